@@ -143,10 +143,11 @@ func runScenario(s *Scenario) (obs Obs) {
 	})
 
 	total := 0
-	for _, c := range s.Chans {
-		total += c.N * len(s.gorsOf(0, "send")) // rough
+	for ci, c := range s.Chans {
+		total += c.N * len(s.gorsOf(ci, "send"))
 	}
-	limit := 60*time.Second + time.Duration(total/1000)*2*time.Second
+	// generous: only a livelock ends here (a deadlock is recognised from the goroutine states long before)
+	limit := 120*time.Second + time.Duration(total/1000)*10*time.Second
 	ctx, cancel := context.WithCancel(context.Background())
 	defer cancel()
 
